@@ -25,7 +25,7 @@ type c15Case struct {
 	Schedule []int   `json:"schedule,omitempty"` // choice prefix (default choice afterwards)
 }
 
-var c15OpNames = []string{"String(ok)", "String(runtime error)", "String(unknown)", "Response(ok)", "Response(error)", "EvaluateString(ok)", "EvaluateString(error)", "EvaluateFile", "String(sink)"}
+var c15OpNames = []string{"String(ok)", "String(runtime error)", "String(unknown)", "Response(ok)", "Response(error)", "EvaluateString(ok)", "EvaluateString(error)", "EvaluateFile", "String(sink)", "String(assign,nil)", "String(assign2,nil)"}
 
 // c15Op runs operation op with the data of thread tid and returns a canonical result.
 func c15Op(tpl *textwire.Template, t Tree, op, tid int) string {
@@ -104,7 +104,19 @@ func c15Op(tpl *textwire.Template, t Tree, op, tid int) string {
 			// shuffle()/rand() may vary: the sink page only prints values derived from them that do not
 			return "out|" + out
 		})
-	default:
+	case 9, 10:
+		name := "assign"
+		if op == 10 {
+			name = "assign2"
+		}
+		res = safe(func() string {
+			out, e := tpl.String(name, nil)
+			if e != nil {
+				return outcomeKey(failOutcome(e))
+			}
+			return "out|" + out
+		})
+	case 7:
 		res = safe(func() string {
 			out, err := textwire.EvaluateFile(t.abs("plain.tw"), d)
 			if err != nil {
@@ -112,6 +124,8 @@ func c15Op(tpl *textwire.Template, t Tree, op, tid int) string {
 			}
 			return "out|" + out
 		})
+	default:
+		panic("harness bug: operation index")
 	}
 	if !reflect.DeepEqual(d, data()) {
 		res += "|DATA-MODIFIED"
